@@ -302,6 +302,67 @@ pub fn check_from_iter(list: &[(u32, u32)], o: &mut Outcome) {
     }
 }
 
+/// The same queries observed through an automaton (`Automaton::char_set_next` is `class_of_set` on a
+/// state's own partition): state 0 gets one transition per interval and, if some character is left
+/// uncovered, a default successor. Judged semantically, on whatever partition the builder gave state 0:
+/// Ok(t) only if every character of the set is in one class of the state and t is its successor;
+/// an error only if the set really meets two classes of the state.
+pub fn check_automaton_view(ivs: &[(u32, u32)], queries: &[(u32, u32)], o: &mut Outcome) {
+    use aws_smt_strings::automata::AutomatonBuilder;
+    let mut b: AutomatonBuilder<u32> = AutomatonBuilder::new(&0);
+    for (i, &(lo, hi)) in ivs.iter().enumerate() {
+        b.add_transition(&0, &CharSet::range(lo, hi), &(1 + (i as u32 % 3)));
+    }
+    if complement_card(ivs) > 0 {
+        b.set_default_successor(&0, &4);
+    }
+    for q in 1..=4u32 {
+        b.set_default_successor(&q, &q);
+    }
+    b.mark_final(&2);
+    let a = match crate::runner::catch(|| b.build()) {
+        Ok(Ok(a)) => a,
+        // whether the builder accepts a specification is C13's subject
+        _ => return,
+    };
+    let s0 = a.initial_state();
+    let ranges: Vec<(u32, u32)> = s0.char_ranges().map(|r| crate::bisim::bounds_of(r)).collect();
+    for &(qa, qb) in queries {
+        o.evals += 1;
+        // the class can only change at the boundaries of the state's ranges
+        let mut probes = vec![qa, qb];
+        for &(lo, hi) in &ranges {
+            for c in [lo, hi] {
+                if qa <= c && c <= qb {
+                    probes.push(c);
+                }
+                if c > 0 && qa <= c - 1 && c - 1 <= qb {
+                    probes.push(c - 1);
+                }
+                if c < MAX && qa <= c + 1 && c + 1 <= qb {
+                    probes.push(c + 1);
+                }
+            }
+        }
+        let classes: std::collections::BTreeSet<String> = probes.iter().map(|&c| format!("{}", s0.class_of_char(c))).collect();
+        let set = CharSet::range(qa, qb);
+        match crate::runner::catch(|| a.char_set_next(s0, &set).map(|st| st.id())) {
+            Ok(Ok(t)) => {
+                let exp = a.next(s0, qa).id();
+                if classes.len() != 1 || t != exp {
+                    o.fail("C11/char_set_next", format!("state with classes {}: char_set_next({}) = state {} although the set meets {} classes / next({}) = state {}", show_part(&ranges), show_iv((qa, qb)), t, classes.len(), show_char(qa), exp));
+                }
+            }
+            Ok(Err(e)) => {
+                if classes.len() == 1 || e != Error::AmbiguousCharSet {
+                    o.fail("C11/char_set_next", format!("state with classes {}: char_set_next({}) = Err({:?}) although the set lies in {} class(es)", show_part(&ranges), show_iv((qa, qb)), e, classes.len()));
+                }
+            }
+            Err(msg) => o.fail("C11/char_set_next", format!("char_set_next({}) panicked: {}", show_iv((qa, qb)), msg)),
+        }
+    }
+}
+
 pub fn run(tape: &[u8], cx: &Cx) -> Outcome {
     let mut t = Tape::new(tape);
     // mostly 0-8 intervals; a sixth of the cases up to 70 (search strategies change with the size)
@@ -362,6 +423,9 @@ pub fn run(tape: &[u8], cx: &Cx) -> Outcome {
         }
     }
     check_from_iter(&list, &mut o);
+    if ivs.len() <= 24 {
+        check_automaton_view(&ivs, &queries, &mut o);
+    }
     if pairwise_disjoint(&list) {
         o.tag("from_iter-disjoint");
     } else {
